@@ -57,6 +57,14 @@ def genC07Cases (tier : String) (seed : Nat) : Array Case := Id.run do
     let note := Json.mkObj [("po", (po : Json)), ("ps", (ps : Json))]
     let c : Case := { id := s!"c07-{i}", op := "tab", args := args, tag := fmt ++ (if dyn then "-dyn" else ""), note := note }
     out := out.push c
+  -- witness of an open finding: dynamic schema, pair statements with different component sets
+  for (t, k) in [("A(officer) {I(inspect) [XOR] I(certify) Cex(quickly) Bdir(farm)}", 0),
+                 ("A(officer) D(must) {I(inspect) Bdir(farm) Cex(today) [AND] I(report)} Cac(when asked)", 1)] do
+    let args := Json.mkObj [("text", (t : Json)), ("orig", ("" : Json)), ("id", ("1" : Json)), ("fmt", ((if k = 0 then "csv" else "gs") : Json)),
+      ("hdr", (true : Json)), ("po", inclName 0 true), ("ps", inclName 0 false), ("ext", (true : Json)), ("ann", (false : Json)),
+      ("dyn", (true : Json)), ("withparse", (true : Json))]
+    out := out.push { id := s!"c07-w{k}", op := "tab", args := args, tag := "witness-dyn",
+                      note := Json.mkObj [("po", (0 : Nat)), ("ps", (0 : Nat)), ("kf", ("C07-dynamic-schema-pair-statements-with-different-components" : Json))] }
   pure out
 
 def splitOnChar (s : List Char) (sep : Char) : List (List Char) :=
@@ -103,6 +111,15 @@ def parseProblem (out : String) (gs hdr : Bool) (po ps : Nat) (first : Bool) : O
     if firstCells.head? = some "Statement ID".toList then return some "header row present although not selected"
   return none
 
+/-- cells per line of one output (CSV: separators; Google Sheets: inside the SPLIT formula) -/
+def cellCounts (out : String) (gs : Bool) : List Nat :=
+  let lines := (splitOnChar out.toList '\n')
+  let lines := if lines.getLast? = some [] then lines.dropLast else lines
+  lines.map fun l =>
+    let inner := if gs then (l.drop 8).take (l.length - 8 - 7) else l
+    let cells := splitOnChar inner '|'
+    (if cells.getLast? = some [] then cells.dropLast else cells).length
+
 def judgeC07 (c : Case) (o : ObsLine) : Verdict :=
   match o.st with
   | "err" => .ok   -- rejected statements produce no table (C11's subject)
@@ -123,6 +140,11 @@ def judgeC07 (c : Case) (o : ObsLine) : Verdict :=
     match probs with
     | p :: _ => .violation "tabular output is not machine-parseable" p
     | [] =>
+      -- the tables of the statements a pair combination expands into form one table under one header
+      let allCounts := outs.flatMap (fun s => cellCounts s gs)
+      if (match allCounts with | c0 :: rest => rest.any (· ≠ c0) | [] => false) then
+        .violation "tabular output is not machine-parseable" s!"the lines of the whole output have different numbers of cells: {allCounts}"
+      else
       if dyn then .ok else
       -- D: model of the printed text, from the implementation's own parse
       match o.obs.getObjVal? "parse" with
